@@ -124,3 +124,15 @@ Theorem C15_limit_bounds : forall lk wh ta tb n la lb,
   matcher lk wh ta tb (Some n) la lb = firstn (N.to_nat n) (matcher lk wh ta tb None la lb).
 Proof. exact limit_bounds. Qed.
 Print Assumptions C15_limit_bounds.
+
+(** The proposed repair (fixes/C15-preceded-by-advance-a.diff: the final [else] branch advances the
+    a pointer; the model follows the Rust text through [Params.seq_pb_else_advances_a]) makes the
+    PRECEDED BY sweep exact: on time-sorted lists and a WHERE accepting every pair, an a-row is
+    matched iff a strictly earlier b-row exists. *)
+Theorem C15_preceded_by_fix_correct : forall w la lb,
+  Sorted ts_le la -> Sorted ts_le lb ->
+  (forall a b, In a la -> In b lb -> w a b = true) ->
+  forall a, In a la ->
+  ((exists b, In (a, b) (preceded_by_gen true w la lb)) <-> (exists b, In b lb /\ ts b < ts a)).
+Proof. exact preceded_by_fix_correct. Qed.
+Print Assumptions C15_preceded_by_fix_correct.
